@@ -227,11 +227,12 @@ def sums(k):
 
 
 def run(run):
-    thorough = run.tier == "thorough"
-    S = strings(4, 3) if thorough else strings()
+    deep = run.tier == "thorough"      # the former thorough bounds are the quick tier now
+    thorough = True
+    S = strings(4, 3)
     terms = [{"t": [c, s]} for s in S for c in (COEFS if thorough or len(s) <= 2 else COEFS[:2])]
     terms += [{"t": [0, {"1": "X"}]}, {"t": [0, {}]}]
-    sms = [{"s": s} for s in sums(3 if thorough else 2)]
+    sms = [{"s": s} for s in sums(4 if deep else 3)]
     ops = terms + sms
     cases = []
     for o in ops:
@@ -251,7 +252,7 @@ def run(run):
         if n <= 2:
             cases += [{"n": n, "m": [a, b]} for a in singles for b in singles]
         else:
-            sub = singles[::5]
+            sub = singles if deep else singles[::5]
             cases += [{"n": n, "m": [a, b]} for a in sub for b in sub]
     secs.append(Section("expansion", cases, expansion_case, desc="get_pauliop_from_matrix on E_ij x scalars, Pauli matrices and sums of two; round trip through get_sparse_operator"))
     cases = []
